@@ -277,6 +277,55 @@ example : demoSchedule[5]? = some (.frame 1 { cmd := cEXEC }) ∧
       some (.exec [.frame KS.ok, .frame (.int 6)]), some (.one (.frame (.bulk [54])))] :=
   ⟨rfl, by decide, by decide, rfl⟩
 
+/-- Every reply any client receives — position `p` of any schedule — is computed from the state at
+    an event boundary, `run (evs.take p)`: a state before or after a whole EXEC, never one in which
+    only part of a queue has run. -/
+theorem every_reply_is_computed_at_an_event_boundary (q : Quirks) (s0 : Server) (evs : List Event) (p : Nat) (e : Event)
+    (hp : evs[p]? = some e) :
+    (trace q s0 evs)[p]? = some (stepEvent q (run q s0 (evs.take p)) e).2 :=
+  trace_getElem q s0 evs p e hp
+
+/-- Hence an invariant of the dataset that every event preserves AS A WHOLE — an EXEC counting as one
+    event, however many commands it runs and even if they break the invariant in between (a transfer:
+    DECRBY a n; INCRBY b n) — holds in every state any client can observe, for every schedule. -/
+theorem invariant_holds_at_every_observation (q : Quirks) (Inv : KS.Store → Prop) (s0 : Server) (evs : List Event)
+    (h0 : Inv s0.store)
+    (hstep : ∀ p e, evs[p]? = some e → Inv (run q s0 (evs.take p)).store → Inv (run q s0 (evs.take (p + 1))).store) :
+    ∀ p, Inv (run q s0 (evs.take p)).store := by
+  intro p
+  induction p with
+  | zero => simpa [run_nil] using h0
+  | succ n ih =>
+    cases h : evs[n]? with
+    | none =>
+      have hlen : evs.length ≤ n := by simpa using h
+      rw [List.take_of_length_le (by omega)]
+      rw [List.take_of_length_le hlen] at ih
+      exact ih
+    | some e => exact hstep n e h ih
+
+def cDECRBY (k n : Bytes) : Cmd := [[68, 69, 67, 82, 66, 89], k, n]
+def cINCRBY (k n : Bytes) : Cmd := [[73, 78, 67, 82, 66, 89], k, n]
+def cMGET (k j : Bytes) : Cmd := [[77, 71, 69, 84], k, j]
+
+/-- two writers (connections 1, 2) transfer 7 and 5 from `a` (= 100) to `b` (= 0) with their frames
+    interleaved; reader 3 looks with MGET after every step -/
+def demoTransfers : List Event :=
+  [.frame 1 { cmd := cMULTI }, .frame 2 { cmd := cMULTI }, .frame 1 { cmd := cDECRBY [97] [55] },
+   .frame 3 { cmd := cMGET [97] [98] }, .frame 2 { cmd := cDECRBY [97] [53] }, .frame 1 { cmd := cINCRBY [98] [55] },
+   .frame 3 { cmd := cMGET [97] [98] }, .frame 1 { cmd := cEXEC }, .frame 3 { cmd := cMGET [97] [98] },
+   .frame 2 { cmd := cINCRBY [98] [53] }, .frame 2 { cmd := cEXEC }, .frame 3 { cmd := cMGET [97] [98] }]
+
+def sTransfers : Server :=
+  { store := (KS.step {} (KS.step {} KS.emptyStore 0 0 (cSET [97] [49, 48, 48]) none).1 0 0 (cSET [98] [48]) none).1 }
+
+/-- the reader sees (100, 0), (100, 0), (93, 7), (88, 12): always 100 in total, although each
+    transaction passes through a state with total 93 resp. 88 -/
+example : (trace Quirks.code sTransfers demoTransfers).filterMap (fun r => match r with
+      | some (.one (.frame (.array [.bulk x, .bulk y]))) => some (x, y)
+      | _ => none) =
+    [([49, 48, 48], [48]), ([49, 48, 48], [48]), ([57, 51], [55]), ([56, 56], [49, 50])] := by decide
+
 /-- What the queue holds when the EXEC arrives: if the connection's OWN events, in a schedule
     interleaved arbitrarily with other connections, are anything that leaves it idle followed by
     MULTI and then queueable commands `cmds`, its queue is exactly `cmds`, in the order sent. -/
